@@ -39,6 +39,9 @@ fn fixed_catalog() -> CatalogSpec {
         RecSpec { owner: rel(&[b"ns"]), ttl: 300, rd: RdSpec::A(1) },
         RecSpec { owner: rel(&[b"www"]), ttl: 300, rd: RdSpec::A(2) },
         RecSpec { owner: rel(&[b"other"]), ttl: 300, rd: RdSpec::A(3) },
+        // two names that differ only in bit 0x20 of an octet that is not a letter: different QNAMEs, different streams
+        RecSpec { owner: rel(&[b"x[y"]), ttl: 300, rd: RdSpec::A(6) },
+        RecSpec { owner: rel(&[b"x{y"]), ttl: 300, rd: RdSpec::A(7) },
         RecSpec { owner: rel(&[b"*", b"wild"]), ttl: 300, rd: RdSpec::A(4) },
         RecSpec { owner: rel(&[b"*", b"literal"]), ttl: 300, rd: RdSpec::A(5) },
         // a wildcard whose A RRset (40 records, about 650 octets) does not fit a plain UDP response: TC set
@@ -135,9 +138,11 @@ pub struct Req {
 
 fn qname_of(shape: &Shape) -> MName {
     match shape {
-        Shape::Answer(v) => match v % 2 {
+        Shape::Answer(v) => match v % 4 {
             0 => n(&[b"www", b"test"]),
-            _ => n(&[b"other", b"test"]),
+            1 => n(&[b"other", b"test"]),
+            2 => n(&[b"x[y", b"test"]),
+            _ => n(&[b"x{y", b"test"]),
         },
         Shape::NoData => n(&[b"ns", b"test"]),
         Shape::Referral => n(&[b"x", b"sub", b"test"]),
@@ -523,7 +528,7 @@ pub fn oracle_pair(case: &PairCase, st: &mut Stats) -> Verdict {
 
 fn req_strategy() -> impl Strategy<Value = Req> {
     let shape = prop_oneof![
-        3 => (0u8..2).prop_map(Shape::Answer),
+        3 => (0u8..4).prop_map(Shape::Answer),
         1 => Just(Shape::NoData),
         1 => Just(Shape::Referral),
         3 => (0u8..2, 0u8..3).prop_map(|(w, v)| Shape::Wild(w, v)),
